@@ -572,10 +572,10 @@ func (f *frame) runLoop(li *loopInfo, order []*ssa.BasicBlock) {
 	if spec != nil {
 		env := f.loopEnv(li, hv, heap1)
 		for _, inv := range spec.Invariants {
-			c.assume(implies(reachH, f.evalClause(env, inv)))
+			f.assumeClause(env, inv, reachH)
 		}
 		for _, as := range spec.Assumes {
-			c.assume(implies(reachH, f.evalClause(env, as)))
+			f.assumeClause(env, as, reachH)
 			c.assumed[fmt.Sprintf("assumed at the head of loop %d of %s (not proved): %s", li.ordinal, shortFn(f.fn), as.Text)] = true
 		}
 		if spec.Decreases != nil {
